@@ -26,7 +26,10 @@ def values(times, sp, entry, seed):
 def ser(lo, hi, sp, entry, seed, origin, kind):
     times = list(range(lo, hi + 1))
     idx = pd.RangeIndex(lo + origin, hi + origin + 1) if kind == 0 else pd.Index(np.arange(lo + origin, hi + origin + 1))
-    return pd.Series(values(times, sp, entry, seed), index=idx)
+    v = values(times, sp, entry, seed)
+    if entry.get("frame"):      # multivariate input (two columns)
+        return pd.DataFrame({"a": v, "b": 100.0 - 0.5 * v + np.cos(np.asarray(times, dtype=float))}, index=idx)
+    return pd.Series(v, index=idx)
 
 
 def close(a, b):
@@ -79,8 +82,9 @@ def observe(entry, cfg, seed):
             o["inv_phases"] = decode_phases(r["est"], r["back"].values, r["out"].values)
         if entry["inverse"]:
             zb, z = r["back"], r["z"]
-            o["rt"] = [bool(abs(a - b) <= 1e-7 * max(1, abs(b))) or not np.isfinite(c)
-                       for a, b, c in zip(zb.values, z.values, r["out"].values)]
+            A, B, C = (np.asarray(x.values, dtype=float).reshape(len(x), -1) for x in (zb, z, r["out"]))
+            o["rt"] = [bool(np.all((np.abs(A[i] - B[i]) <= 1e-7 * np.maximum(1, np.abs(B[i]))) | ~np.isfinite(C[i])))
+                       for i in range(len(B))] if A.shape == B.shape else [False] * len(B)
             o["rt_index"] = bool(list(zb.index) == list(z.index)) and len(zb) == len(z)
         train = ser(0, cfg["n"] - 1, cfg["sp"], entry, seed, origin, seed % 2)
         a = entry["factory"]().fit_transform(train.copy())
